@@ -21,6 +21,18 @@ CLAIMED = {
    "Lean 4 theorems about the model of ParseURL's own logic and of the dialer registry: parse_compose (a path composed of any digipeater list and target parses into exactly those components, upper-cased, in order; host parameter overrides host), short_target_refused, digis_refused (ardop/telnet), registry_seq (after ANY register/unregister history dial reaches the dialer registered last for the scheme or reports missing), dial_after_register/unregister, mutex_guarded (regenerated fact: every access to the dialer map in /repo's current source lies between mu.Lock and mu.Unlock, by decide). Tie: the real url.Parse output is fed to the Lean model and the final results diffed on composed tuples, raw/mutated strings and registry histories; an independent Go oracle checks exact components end-to-end and recovers panics.",
    "net/url.Parse is an external call (stdlib, trusted): the theorem starts from its result, the end-to-end composition with url.Parse is checked by the oracle on generated tuples only; strings.ToUpper modelled for ASCII paths (non-ASCII paths are judged by the oracle only); concurrency is reduced to the atomic-step model by the regenerated mutex fact (straight-line lock discipline) - a -race run is witness search only; trusted: Lean kernel, extractor, harness, driver shell",
    "Lean 4 proof over hand-written model + regenerated mutex facts + differential correspondence", "5.19"),
+ "C06": ("proof",
+   "Executable Lean model of the whole codec (Huff/Tree/Writer/Reader, function for function after lzhuf/*.go) tied to /repo by state-digest correspondence: compressed bytes AND an FNV digest of the COMPLETE compressor state after every Write, reader (n,err) sequences, bytes, Close verdict and reader-state digest are compared with the real code on every case. Proved in Lean for all inputs and partitions: write_split_indep / compress_split_indep (output independent of how writes are split). The universal round-trip theorem is NOT yet proved (open obligation, named in Props/C06.lean); it is covered by the property oracle Read(Write(x)) = x ∧ Close = nil on the real code over exhaustive short strings, window/prefill boundary families, the Fibonacci-profile family that drives code lengths past 16 bits, and the testdata files.",
+   "OPEN: roundtrip for all x (Huffman-layer invariant HuffWF and window-layer TreeInv not yet proved) - this clause is at exploration level (correspondence + oracle), not proof level; inputs >= 2 GiB wrap the int32 size and are out of scope; bufio/bytes.Buffer plumbing modelled as concatenation; trusted: Lean kernel, harness, hooks lzhuf.VerifDigest, driver shell",
+   "Lean 4 model + proved chunk-independence theorem + state-digest correspondence + round-trip oracle", "5.6"),
+ "C07": ("proof",
+   "Proved in Lean against the tables and constants REGENERATED from /repo on every run: params_canonical (N=2048,F=60,THRESHOLD=2,MAX_FREQ=0x8000,...), ptables_canonical (p_len/p_code are LZHUF.C's), dtable_inverts_ptable (decode tables invert the encode tables, every byte covered; decide +kernel over all entries), crc16tab_eq_bitwise (the table is the CRC-16/XMODEM table of polynomial 0x1021), header_canonical/canon_header (stream layout = LE CRC-16, LE32 size, body). The two cross-decoding statements are NOT proved; they are checked against TWO independent transcriptions of LZHUF.C (Lean Lzhuf.Canon and Go harness/cmd/corr/canon.go, compared with each other on every case) in both directions, plus the five golden .lzh files.",
+   "OPEN: canon_decodes_go / go_decodes_canon for all x, and crc = bitwise XMODEM for all byte strings (table entries are proved, the fold is checked by correspondence against a bitwise Go CRC); 'canonical' = two transcriptions + 5 golden files, no third-party binary exists offline; the canonical encoder's own 16-bit code limit is respected (such inputs are skipped in the ref->lib direction and counted); trusted: Lean kernel, extractor, harness, driver shell",
+   "Lean 4 proofs over regenerated tables (decide +kernel) + cross-correspondence with two independent canonical transcriptions + golden files", "5.7"),
+ "C08": ("proof",
+   "Lean model of reader.go/bit_reader.go (after the fixes) incl. the bufio/TeeReader CRC coverage, tied to /repo by correspondence on malformed streams: every truncation/bit flip of short valid streams, header size edits (negative, zero, too small/large), CRC edits, splices, trailing garbage, random bytes; compared: NewReader result, (n,err) sequence, bytes, Close, state digest. Proved: new_reader_short (short headers are error returns), close_sound (Close = nil only if no error was recorded, the bit reader never ran dry, the CRC over the pulled bytes matches and delivered bytes = declared size). An independent Go oracle (own canonical decoder + bitwise CRC) judges the real code: no panic, terminates, bytes <= declared size, Close = nil only for the canonical decoding.",
+   "OPEN: read_bounded/read_progress/read_terminates/read_no_panic as Lean theorems (in progress; these clauses currently rest on correspondence + oracle, i.e. exploration level); 'bytes are the canonical decoding' is judged by the independent Go decoder, not proved; known finding C08:crc-ignores-unread-tail; wall-clock/memory not modelled; trusted: Lean kernel, harness, driver shell",
+   "Lean 4 model + proved Close-verdict theorem + differential correspondence on malformed streams + independent canonical oracle", "5.8"),
 }
 PENDING_REASON = "check not yet built in this session (construction order DESIGN.md §7); not claimed until its model, theorems and correspondence run exist"
 
